@@ -2,7 +2,7 @@
 From XcpModel Require Import Base Extents Sparse Blocks CopyLoop FileCopy.
 From XcpProofs Require Import ExtentsProofs SparseProofs BlocksProofs CopyLoopProofs FileCopyProofs.
 From XcpModel Require Import Extracted.
-From XcpProofs Require Import ExtractedOk.
+From XcpProofs Require Import XReflink XOps.
 
 (* never: no clone request, in either driver, whatever the kernel would answer *)
 Theorem C15_never_no_clone : forall fuel bs len sparse clone sd sh mx ans,
@@ -95,3 +95,11 @@ Print Assumptions C15_clone_unsupported_errnos.
 Print Assumptions C15_src_reflink_unsupported_errnos.
 Print Assumptions C15_src_try_reflink_table.
 Print Assumptions C15_src_clone_attempt_first.
+
+(* ---- further glue on this property's path, pinned token for token (an edit re-opens the obligation; the run then
+   looks for a failing input) ---- *)
+From XcpPins Require Import Pin_linux_reflink.
+From XcpProofs Require Import PinnedSource.
+Theorem C15_src_pin_linux_reflink : pin_unchanged name_linux_reflink.
+Proof. exact pin_linux_reflink. Qed.
+Print Assumptions C15_src_pin_linux_reflink.
